@@ -132,7 +132,10 @@ func (k *Keyring) RemoveKey(key []byte) error {
 	}
 	for i, installedKey := range k.keys {
 		if bytes.Equal(key, installedKey) {
-			keys := append(k.keys[:i], k.keys[i+1:]...)
+			// Build a fresh list: appending in place would rewrite the
+			// slice previously handed out by GetKeys, which callers
+			// (decryptPayload) iterate without holding the lock.
+			keys := append(append([][]byte{}, k.keys[:i]...), k.keys[i+1:]...)
 			k.installKeysLocked(keys, k.keys[0])
 		}
 	}
